@@ -453,7 +453,13 @@ class Engine:
                     res = vs[-1]
                     for v in reversed(vs[:-1]):
                         c = self.truth(v, s1)
-                        if v.ty.sort != res.ty.sort: raise Unsupported("and/or over different types")
+                        if v.ty.sort != res.ty.sort:
+                            # `x or DEFAULT` with an opaque x: both operands as opaque values
+                            if v.ty is VAL or res.ty is VAL or v.ty is NONE or res.ty is NONE:
+                                v = SV(self.inject(v) if v.ty is not VAL else v.v, VAL) if v.ty is not NONE else SV(VNONE, VAL)
+                                res = SV(self.inject(res) if res.ty is not VAL else res.v, VAL) if res.ty is not NONE else SV(VNONE, VAL)
+                            else:
+                                raise Unsupported("and/or over different types")
                         res = SV(z3.If(c, res.v, v.v) if isinstance(n.op, ast.And) else z3.If(c, v.v, res.v), res.ty)
                     yield s1, res
             return
@@ -1200,6 +1206,7 @@ class Engine:
         # parameters in the real signature must be covered by the contract
         real = [a.arg for a in fn.args.posonlyargs + fn.args.args + fn.args.kwonlyargs]
         if fn.args.vararg: real.append(fn.args.vararg.arg)
+        if fn.args.kwarg: real.append(fn.args.kwarg.arg)
         missing = [p for p in real if p not in c.params]
         if missing:
             raise Unsupported("parameters %s of %s have no declared type" % (missing, c.qual))
